@@ -45,7 +45,51 @@ let () =
           else if wanted op then (List.rev replies, Some (Printf.sprintf "data:%d:%s" op (hex_of_bytes e.ev_payload)))
           else walk r replies in
       let (exp_replies, exp_res) = walk sp.sr_events [] in
-      (match sp.sr_out with
+      (* the proved monitor (coq/model/ReadDataGen.v, theorems C05_read_data_violation / C16_read_data_cut)
+         on the Go observation, and the model of readData on the same bytes *)
+      let wantn = ni (match want with "text" -> 1 | "binary" -> 2 | _ -> 3) in
+      let failing = (tail = "fail" || tail = "faildata") in
+      let res_class = (match String.split_on_char ':' res with "proto" :: _ | "err" :: "protocol" :: _ -> "proto" | _ -> res) in
+      let go_res = (match String.split_on_char ':' res with
+        | ["data"; op; p] -> Some (ReadData.RDData (ni (int_of_string op), bytes_of_hex p))
+        | ["closed"; c; r] -> Some (ReadData.RDHandler (HClosed (ni (int_of_string c), bytes_of_hex r)))
+        | ["proto"; "other"] -> Some (ReadData.RDErr (RProtocol ReservedOp))   (* a header rule; the monitor looks at the class only *)
+        | ["proto"; _] -> Some (ReadData.RDHandler (HProto NotInUse))          (* CheckCloseFrameData; class only *)
+        | "io" :: e | "err" :: e ->
+          (match K_reader.rerror_of_string (String.concat ":" e) with Some e -> Some (ReadData.RDErr e) | None -> None)
+        | _ -> None) in
+      let judged = (want <> "binary") || sp.sr_out <> OInvalidUtf8 in
+      let gen_verdict =
+        if not judged then None
+        else (match go_res with
+          | None -> Some (Viol ("ReadData ended with an unclassified outcome: " ^ res))
+          | Some r ->
+            if not (ReadDataGen.rx_monitor_gen state wantn fs (ni cutn) failing r log) then
+              Some (Viol (if cut_kind then "ReadData on a cut stream contradicts rx_monitor_gen (reply for a cut control frame, incomplete message delivered, or clean EOF inside a frame)"
+                          else "ReadData contradicts rx_monitor_gen (replies / result / error class on a violating or incomplete stream)"))
+            else begin
+              let data = K_reader.take_n cutn (wire fs) in
+              let s = K_reader.mk_src data spec tail in
+              let masks = K_writer.masks_of (List.concat log) in
+              let fuel = nat_of_int (2 * List.length data + 4 * List.length fs + 50) in
+              let (mres, mlog) = ReadData.read_data_call fuel wantn state s masks in
+              let mres_s = (match mres with
+                | ReadData.RDData (op, p) -> Printf.sprintf "data:%d:%s" (int_of_n op) (hex_of_bytes p)
+                | ReadData.RDHandler (HClosed (c, r)) -> Printf.sprintf "closed:%d:%s" (int_of_n c) (hex_of_bytes r)
+                | ReadData.RDHandler (HProto _) -> "proto"
+                | ReadData.RDHandler _ -> "handler"
+                | ReadData.RDErr (RProtocol _) -> "proto"
+                | ReadData.RDErr (RIo e) -> "io:" ^ K_reader.string_of_rerror (RIo e)
+                | ReadData.RDErr ((RMsb | RLenUnexpected) as e) -> "io:" ^ K_reader.string_of_rerror e
+                | ReadData.RDErr e -> "err:" ^ K_reader.string_of_rerror e) in
+              if not (ReadDataGen.rx_monitor_gen state wantn fs (ni cutn) failing mres mlog) then
+                Some (Diff "model of readData does not satisfy rx_monitor_gen (model/spec bug)")
+              else if mres_s <> res_class then Some (Diff ("model of readData returns " ^ mres_s ^ ", the code " ^ res_class))
+              else if List.concat mlog <> List.concat log then Some (Diff "model of readData writes different replies")
+              else None
+            end) in
+      (match gen_verdict with Some v -> v | None ->
+      match sp.sr_out with
        | OClean | OCutMidMessage ->
          (match frames_of (List.concat log) with
           | None -> Viol "ReadData: bytes written are not whole reply frames"
@@ -98,42 +142,7 @@ let () =
                 if not is_err then Viol "ReadData reported success although no complete wanted message was received"
                 else if clean && not clean_allowed then Viol "ReadData: a cut message/frame ended in a clean io.EOF"
                 else Pass true))
-       | OProtocol _ when not cut_kind ->
-         (* frame k breaks a header rule: what was complete before it is handled as usual; if no
-            wanted message (or close) was complete before frame k the call must fail with the
-            protocol error, having answered exactly the control frames before frame k; nothing of
-            frame k or later is returned or answered *)
-         (match frames_of (List.concat log) with
-          | None -> Viol "ReadData: bytes written are not whole reply frames"
-          | Some rf ->
-            let reply_ok (ex : expect_reply) (f : pframe) =
-              reply_frame_ok state f && int_of_n f.pf_header.h_op = ex.e_op &&
-              (if ex.e_any_proto then
-                 (let (rc, _) = parse_close (pf_unmasked f) in let rc = int_of_n rc in rc = 1002 || rc = 1007)
-               else pf_unmasked f = ex.e_payload) in
-            let replies_ok = List.length rf = List.length exp_replies && List.for_all2 reply_ok exp_replies rf in
-            let res_class = (match String.split_on_char ':' res with "proto" :: _ -> "proto" | _ -> res) in
-            let is_proto_err = String.length res >= 13 && String.sub res 0 13 = "err:protocol:" in
-            if not replies_ok then Viol "ReadData on a stream with a rule-breaking frame: replies are not exactly those for the control frames before it"
-            else (match exp_res with
-              | Some er -> if res_class <> er then Viol "ReadData returned the wrong message/result before a rule-breaking frame" else Pass true
-              | None ->
-                if not is_proto_err then Viol ("ReadData did not report the protocol error of the rule-breaking frame: " ^ res)
-                else begin
-                  let data = wire fs in
-                  let s = K_reader.mk_src data spec tail in
-                  let wantn = ni (match want with "text" -> 1 | "binary" -> 2 | _ -> 3) in
-                  let masks = K_writer.masks_of (List.concat log) in
-                  let fuel = nat_of_int (2 * List.length data + 4 * List.length fs + 50) in
-                  let (mres, mlog) = ReadData.read_data_call fuel wantn state s masks in
-                  let mres_s = (match mres with
-                    | ReadData.RDErr e -> "err:" ^ K_reader.string_of_rerror e
-                    | _ -> "notanerror") in
-                  if mres_s <> res then Diff ("model of readData returns " ^ mres_s)
-                  else if List.concat mlog <> List.concat log then Diff "model of readData writes different replies"
-                  else Pass true
-                end))
-       | _ -> Pass false)
+       | _ -> Pass judged)
     | _ -> Diff "malformed line") in
   register "RX" (rx false); register "RXC" (rx true)
 
